@@ -29,6 +29,8 @@ class Scenario:
         self.phases = []
 
     def main(self, env):
+        if self.params.get("simultaneous"):
+            return self.simultaneous(env)
         for index, phase in enumerate(self.params["phases"] + [
                 {"end": "shutdown:outside", "thread": "main", "population": "none",
                  "stop_at": 0.0, "final": True}]):
@@ -37,6 +39,69 @@ class Scenario:
             self.run_phase(env, index, phase, record)
             if record["outcome"] is None:
                 break
+
+    def simultaneous(self, env):
+        """Two runners call accept() at the same moment: one is admitted, the other refused"""
+        from cobald.daemon.runners.service import ServiceRunner
+
+        runners = {"a": ServiceRunner(accept_delay=ACCEPT_DELAY),
+                   "b": ServiceRunner(accept_delay=ACCEPT_DELAY)}
+
+        def rescue(name):
+            runners[name].running.wait()
+            env.log("admitted", who=name)
+            env.sleep(0.5)
+            runners[name].shutdown()
+            env.log("rescued", who=name)
+
+        def accept(name):
+            env.log("sim-accept-call", who=name)
+            try:
+                runners[name].accept()
+            except Abort:
+                raise
+            except BaseException as err:  # noqa: B036
+                env.log("sim-accept-ended", who=name, how="raised", exc=err)
+            else:
+                env.log("sim-accept-ended", who=name, how="returned")
+
+        for name in runners:
+            env.spawn(rescue, "rescue-" + name, name)
+        other = env.spawn(accept, "accept-b", "b")
+        accept("a")
+        other.join()
+
+    def check_simultaneous(self, ex):
+        violations = []
+        admitted = [(s, d["who"]) for s, n, w, e, d in ex.log if e == "admitted"]
+        ended = {d["who"]: (s, d) for s, n, w, e, d in ex.log if e == "sim-accept-ended"}
+        if ex.deadlock:
+            return {"violations": [("simultaneous:deadlock", repr(ex.deadlock_info))],
+                    "outcome": "deadlock"}
+        if len(ended) < 2:
+            violations.append(("simultaneous:accept-did-not-end",
+                               "of two simultaneous accept() calls %r ended" % sorted(ended)))
+        elif len(admitted) != 1:
+            violations.append(("simultaneous:admitted-%d" % len(admitted),
+                               "two simultaneous accept() calls: %d runners were admitted (%r)"
+                               % (len(admitted), ended)))
+        else:
+            winner = admitted[0][1]
+            loser = "b" if winner == "a" else "a"
+            seq, data = ended[loser]
+            if data["how"] != "raised" or not isinstance(data["exc"], RuntimeError):
+                violations.append(("simultaneous:loser-not-refused",
+                                   "the accept() that lost ended with %r" % (data,)))
+            elif seq > ended[winner][0]:
+                violations.append(("simultaneous:loser-waited",
+                                   "the accept() that lost was refused only after the other "
+                                   "runner had ended: it waited instead of raising"))
+            if ended[winner][1]["how"] != "returned":
+                violations.append(("simultaneous:winner-failed",
+                                   "the admitted accept() ended with %r" % (ended[winner][1],)))
+        return {"violations": violations,
+                "outcome": repr((tuple(who for _s, who in admitted),
+                                 tuple(sorted((k, v[1]["how"]) for k, v in ended.items()))))}
 
     def run_phase(self, env, index, phase, record):
         from cobald.daemon.runners.service import ServiceRunner
@@ -187,6 +252,8 @@ class Scenario:
         env.sleep(0.5)
 
     def check(self, ex):
+        if self.params.get("simultaneous"):
+            return self.check_simultaneous(ex)
         violations = []
         if ex.deadlock:
             return {"violations": [("deadlock", "deadlock: %r" % (ex.deadlock_info,))],
@@ -335,6 +402,7 @@ def scenario_params(tier):
     for end, population in itertools.product(BASE_ENDS, ["none", "sleepers"]):
         out.append({"phases": [{"end": end, "thread": "main", "population": population,
                                 "stop_at": 0.5}]})
+    out.append({"simultaneous": True, "phases": []})
     # histories of two runners (plus the final one)
     for index, (end_a, end_b) in enumerate(itertools.product(ENDS, ENDS)):
         thread_a = "second" if index % 2 and end_a != "sigint" else "main"
@@ -361,13 +429,14 @@ def run(ctx):
     if ctx.quick:
         # the shutdown-right-after-running window only exists between two source lines
         specs += H.line_variants(
-            specs, lambda p: len(p["phases"]) == 1 and p["phases"][0]["stop_at"] == 0.0
+            specs, lambda p: p.get("simultaneous") or len(p["phases"]) == 1 and p["phases"][0]["stop_at"] == 0.0
             and p["phases"][0]["population"] == "none" and not p["phases"][0].get("concurrent")
             and p["phases"][0]["end"].startswith("shutdown")
             and p["phases"][0]["thread"] == "main")
     else:
         specs += H.line_variants(
-            specs, lambda p: len(p["phases"]) == 1 and p["phases"][0]["stop_at"] in (0.0, 0.05)
+            specs, lambda p: p.get("simultaneous") or len(p["phases"]) == 1
+            and p["phases"][0]["stop_at"] in (0.0, 0.05)
             and p["phases"][0]["population"] in ("none", "submitter"))
     ctx.pmap(H.shard, specs, cost=lambda spec: len(spec["params"]["phases"])
              + 2 * bool(spec["opts"].get("line_points")))
